@@ -669,7 +669,7 @@ func checkC01(c *Ctx, r *Report) {
 			}
 			walk(st.Val, 5)
 			rejected := false
-			for _, cf := range condFacts(in.Block()) {
+			for _, cf := range normFacts(condFacts(in.Block())) {
 				if bo, ok := cf.Cond.(*ssa.BinOp); ok && bo.Op == token.GTR && !cf.True {
 					if cv, ok := bo.X.(*ssa.Convert); ok {
 						if call, ok := cv.X.(*ssa.Call); ok {
